@@ -14,9 +14,11 @@ import (
 	"strconv"
 	"strings"
 	"sync"
+	"sync/atomic"
 	"time"
 
 	"github.com/IrineSistiana/mosdns/v5/pkg/upstream"
+	"github.com/miekg/dns"
 )
 
 // C18: upstreams connect to exactly the address the user configured.
@@ -32,6 +34,8 @@ import (
 //     through Opt.Bootstrap, each must reach its own name's address and port.
 // (5) c18doh.go: https / h3 against real DoH servers on loopback: server name,
 //     request authority and dial target of the endpoint URL.
+// (6) c18fwd.go: forward plugins built from configuration, several entries with
+//     the same addr and different dial_addr; a query routed to one entry.
 
 func init() { props["C18"] = runC18 }
 
@@ -64,21 +68,21 @@ func newSocks18() *socks18 {
 	return s
 }
 
-func (s *socks18) serve(c net.Conn) {
-	defer c.Close()
-	c.SetDeadline(time.Now().Add(3 * time.Second))
+// socks5Accept18 plays the server side of a no-auth SOCKS5 CONNECT up to (not including) the reply and returns the
+// requested destination as host|port (host: canonical IP text, or "name:" + the domain name as sent).
+func socks5Accept18(c net.Conn) (string, bool) {
 	var h [2]byte
 	if _, err := io.ReadFull(c, h[:]); err != nil || h[0] != 5 {
-		return
+		return "", false
 	}
 	methods := make([]byte, h[1])
 	if _, err := io.ReadFull(c, methods); err != nil {
-		return
+		return "", false
 	}
 	c.Write([]byte{5, 0})
 	var req [4]byte
 	if _, err := io.ReadFull(c, req[:]); err != nil || req[1] != 1 {
-		return
+		return "", false
 	}
 	var host string
 	switch req[3] {
@@ -97,13 +101,22 @@ func (s *socks18) serve(c net.Conn) {
 		io.ReadFull(c, d)
 		host = "name:" + string(d)
 	default:
-		return
+		return "", false
 	}
 	var p [2]byte
 	if _, err := io.ReadFull(c, p[:]); err != nil {
+		return "", false
+	}
+	return fmt.Sprintf("%s|%d", host, binary.BigEndian.Uint16(p[:])), true
+}
+
+func (s *socks18) serve(c net.Conn) {
+	defer c.Close()
+	c.SetDeadline(time.Now().Add(3 * time.Second))
+	tgt, ok := socks5Accept18(c)
+	if !ok {
 		return
 	}
-	tgt := fmt.Sprintf("%s|%d", host, binary.BigEndian.Uint16(p[:]))
 	s.mu.Lock()
 	s.target = append(s.target, tgt)
 	s.mu.Unlock()
@@ -200,6 +213,51 @@ func (r *Run) v6() string {
 		return fmt.Sprintf("2001:db8:%x::%x", r.Rng.Intn(65536), r.Rng.Intn(65536))
 	}
 	return forms[r.Rng.Intn(len(forms))]
+}
+
+// name18: a lower-case host name of the grammar
+func (r *Run) name18() string {
+	h := strings.ToLower(strings.TrimSuffix(r.Name(), "."))
+	if len(h) > 60 {
+		h = h[:60]
+	}
+	h = strings.Trim(strings.ReplaceAll(h, "_", "x"), "-.")
+	if h == "" {
+		h = "dns.example"
+	}
+	return h
+}
+
+// bootAny18: a bootstrap server that answers every A question with 127.0.0.9 and every AAAA question with ::9.
+type bootAny18 struct {
+	srv  *dns.Server
+	addr string
+	hits atomic.Int64
+}
+
+func newBootAny18() *bootAny18 {
+	pc, err := net.ListenPacket("udp", "127.0.0.1:0")
+	if err != nil {
+		return nil
+	}
+	b := &bootAny18{addr: pc.LocalAddr().String()}
+	b.srv = &dns.Server{PacketConn: pc, Handler: dns.HandlerFunc(func(w dns.ResponseWriter, q *dns.Msg) {
+		m := new(dns.Msg)
+		m.SetReply(q)
+		if len(q.Question) == 1 {
+			b.hits.Add(1)
+			hdr := dns.RR_Header{Name: q.Question[0].Name, Rrtype: q.Question[0].Qtype, Class: dns.ClassINET, Ttl: 600}
+			switch q.Question[0].Qtype {
+			case dns.TypeA:
+				m.Answer = append(m.Answer, &dns.A{Hdr: hdr, A: net.IPv4(127, 0, 0, 9).To4()})
+			case dns.TypeAAAA:
+				m.Answer = append(m.Answer, &dns.AAAA{Hdr: hdr, AAAA: net.ParseIP("::9")})
+			}
+		}
+		w.WriteMsg(m)
+	})}
+	go b.srv.ActivateAndServe()
+	return b
 }
 
 func (r *Run) port18() int {
@@ -373,6 +431,15 @@ func runC18(r *Run) {
 	defer sk.l.Close()
 	socksAddr := sk.l.Addr().String()
 	nbb := r.N(250, 4000)
+	bs18 := newBootAny18()
+	if bs18 == nil {
+		r.Note("SOCKS5 + bootstrap cases skipped: no UDP listener for the fake bootstrap server")
+	} else {
+		defer func() {
+			bs18.srv.Shutdown()
+			r.Note(fmt.Sprintf("bootstrap server of the SOCKS5 matrix received %d questions", bs18.hits.Load()))
+		}()
+	}
 	// one TLS configuration for all upstreams, as a caller with several upstreams may well do: what one upstream
 	// derives from its own address (the default server name) must not reach another
 	sharedTLS := &tls.Config{InsecureSkipVerify: true}
@@ -387,13 +454,31 @@ func runC18(r *Run) {
 				a.path = ""
 			}
 		}
-		u, err := upstream.NewUpstream(a.url(), upstream.Opt{Socks5: socksAddr, DialAddr: a.dial, TLSConfig: sharedTLS})
+		// dial_addr as a host name (with or without port): through a proxy every stream scheme takes one
+		if r.Rng.Intn(6) == 0 {
+			a.dialHost, a.dialPort = r.name18(), -1
+			a.dial = a.dialHost
+			if r.Rng.Intn(2) == 0 {
+				a.dialPort = 1 + r.Rng.Intn(65535)
+				a.dial += ":" + strconv.Itoa(a.dialPort)
+			}
+		}
+		// a bootstrap server is configured in about half of the cases (the forward plugin hands its plugin-wide one
+		// to every upstream): what the proxy is asked for stays the host the user wrote
+		bootstrap, bootVer := "", 0
+		if bs18 != nil && r.Rng.Intn(2) == 0 {
+			bootstrap, bootVer = bs18.addr, []int{0, 4, 6}[r.Rng.Intn(3)]
+		}
+		u, err := upstream.NewUpstream(a.url(), upstream.Opt{Socks5: socksAddr, DialAddr: a.dial, TLSConfig: sharedTLS, Bootstrap: bootstrap, BootstrapVer: bootVer})
 		if sharedTLS.ServerName != "" {
 			r.Fail("creating an upstream changed the TLS configuration the caller passed in (the next upstream built from it would use this one's server name)", map[string]any{"addr": a.url(), "dial_addr": a.dial, "server_name_written": sharedTLS.ServerName})
 			sharedTLS = &tls.Config{InsecureSkipVerify: true}
 		}
 		wantHost, wantPort := a.expected()
 		desc := map[string]any{"addr": a.url(), "dial_addr": a.dial, "want_host": wantHost, "want_port": wantPort}
+		if bootstrap != "" {
+			desc["socks5"], desc["bootstrap"], desc["bootstrap_version"] = socksAddr, bootstrap+" (answers every A / AAAA question with 127.0.0.9 / ::9)", bootVer
+		}
 		// model line: what does the model say NewUpstream dials for this URL host?
 		rawHost := a.host
 		if a.port >= 0 {
@@ -415,6 +500,13 @@ func runC18(r *Run) {
 		targets, snis := sk.take()
 		r.Eval(key, true)
 		r.Count("bb:dialled:" + a.scheme)
+		if bootstrap != "" {
+			if _, perr := netip.ParseAddr(wantHost); perr != nil {
+				r.Count("bb:socks5+bootstrap:host-name:" + a.scheme)
+			} else {
+				r.Count("bb:socks5+bootstrap:ip")
+			}
+		}
 		if len(targets) == 0 {
 			r.Count("bb:no-connect-observed")
 			continue
@@ -453,7 +545,11 @@ func runC18(r *Run) {
 				mh = obsHost
 			}
 		}
-		r.Line(fmt.Sprintf("target %s %s %d", hx([]byte(rawHost)), hx([]byte(a.dial)), defaultPort18(a.scheme)), fmt.Sprintf("%s %d", hx([]byte(mh)), obsPort))
+		op := "target"
+		if bootstrap != "" {
+			op = "s5target" // the model's CONNECT target (fact c18Socks5ConnectsToTarget)
+		}
+		r.Line(fmt.Sprintf("%s %s %s %d", op, hx([]byte(rawHost)), hx([]byte(a.dial)), defaultPort18(a.scheme)), fmt.Sprintf("%s %d", hx([]byte(mh)), obsPort))
 		// SNI: Go does not send a server name for IP literals
 		if (a.scheme == "tls" || a.scheme == "tls+pipeline" || a.scheme == "https") && len(snis) > 0 && !a.isIP {
 			desc["sni"] = snis[0]
@@ -521,5 +617,7 @@ func runC18(r *Run) {
 	runC18Boot(r)
 	// ---------- (5) the DoH path: https / h3 against real DoH servers on loopback
 	runC18Doh(r)
-	r.Finish("address grammar {scheme} x {IPv4, [IPv6], bare IPv6, hostname} x {no port, 1..65535, >65535} x {no dial_addr, IP, IP:port, [IPv6]:port, bare IPv6} x {path}; helper functions on every component string plus hand-picked malformed strings plus random strings over `[]:.a1%/ `; black box via a SOCKS5 observer (CONNECT target, TLS ClientHello SNI) and loopback UDP; groups of 2..4 upstreams created in one process on host names resolved through Opt.Bootstrap (fake bootstrap server, one loopback address per name, TCP and UDP listeners on a shared set of ports; same name with equal and different ports, tls / tls+pipeline / https / quic / h3, port in the URL or in dial_addr name:port, bootstrap version 0/4/6), each connection attributed by ALPN tag or UDP source port and required to reach its own upstream's name and port; the https / h3 matrix {IPv4, [IPv6], bare IPv6, host name} x {port, none} x {dial_addr 127.0.0.1:p / [::1]:p, none = SOCKS5 observer splicing to the server} x {path} against real DoH servers on loopback (HTTP/2 over TLS attributed by ALPN tag, one HTTP/3 server per case), per-case certificate valid for exactly the URL host, verified or unverified: server name (host-name mismatch error, SNI), Host / :authority, CONNECT target / dial_addr listener; non-trivial = input contains a bracket or colon / every black-box case")
+	// ---------- (6) upstreams created from the forward plugin's configuration
+	runC18Fwd(r)
+	r.Finish("address grammar {scheme} x {IPv4, [IPv6], bare IPv6, hostname} x {no port, 1..65535, >65535} x {no dial_addr, IP, IP:port, [IPv6]:port, bare IPv6} x {path}; helper functions on every component string plus hand-picked malformed strings plus random strings over `[]:.a1%/ `; black box via a SOCKS5 observer (CONNECT target, TLS ClientHello SNI; dial_addr also as name / name:port; Opt.Bootstrap set to a server that answers every name in half of the cases - the CONNECT target stays the name written) and loopback UDP; forward plugins built from configuration (NewForward / Init) with 2..4 entries that share their addr and differ in dial_addr (all six forms), share both, or neither, stream entries through a plugin-wide or per-entry SOCKS5 observer with or without a plugin-wide bootstrap server, UDP entries to loopback listeners, one query routed to one entry by tag and attributed by its question name (plain TCP, UDP) or, for TLS, by the window of a call that ended by itself; groups of 2..4 upstreams created in one process on host names resolved through Opt.Bootstrap (fake bootstrap server, one loopback address per name, TCP and UDP listeners on a shared set of ports; same name with equal and different ports, tls / tls+pipeline / https / quic / h3, port in the URL or in dial_addr name:port, bootstrap version 0/4/6), each connection attributed by ALPN tag or UDP source port and required to reach its own upstream's name and port; the https / h3 matrix {IPv4, [IPv6], bare IPv6, host name} x {port, none} x {dial_addr 127.0.0.1:p / [::1]:p, none = SOCKS5 observer splicing to the server} x {path} against real DoH servers on loopback (HTTP/2 over TLS attributed by ALPN tag, one HTTP/3 server per case), per-case certificate valid for exactly the URL host, verified or unverified: server name (host-name mismatch error, SNI), Host / :authority, CONNECT target / dial_addr listener; non-trivial = input contains a bracket or colon / every black-box case")
 }
